@@ -171,6 +171,11 @@ ABLATION = [
     *[("QFormLayout {", "QHBoxLayout", b) for b in ("QLayout.row: 1", "QLayout.column: 1", "QLayout.columnSpan: 2", "QLayout.rowStretch: 2", "spacing: 9")],
     *[("QMenu {", "QMenu", b) for b in ('title: "sub"', "title: edit.text", "enabled: chk.checked", "QLayout.row: 1")],
     *[("QComboBox {", None, b) for b in ('model: ["a", "b"]', 'model: chk.checked ? ["a"] : ["b"]', "currentIndex: 1")],
+    # the bound object is read by a dynamic binding elsewhere in the document (4th member: the observer)
+    *[(cont, "QAction", b, obs) for cont in ("QWidget {", "QMenu {", "QToolBar {")
+      for b in ("separator: true", 'text: "t"', "checkable: true", "separator: chk.checked")
+      for obs in ("QCheckBox { id: obs; checked: x.visible }", "QLabel { id: obs; enabled: x.enabled; text: x.text }")],
+    *[("QVBoxLayout {", "QLabel", b, "QLabel { id: obs; text: x.windowTitle }") for b in ('windowTitle: "w"', "enabled: false", "QLayout.alignment: Qt.AlignRight")],
     *[("QTableView {", None, b) for b in ("horizontalHeader.visible: false", "horizontalHeader.defaultSectionSize: 41", "horizontalHeader.visible: chk.checked", "verticalHeader.stretchLastSection: true")],
 ]
 
@@ -179,17 +184,20 @@ def ablation_leg(chk):
     """no binding is silently ignored: the document with the binding and the document without it differ in the .ui, in the support header or in the diagnostics
     (generate mode).  The oracle needs no knowledge of which container consumes which attached member."""
     reqs = []
-    for n, (cont, child, binding) in enumerate(ABLATION):
+    for n, case in enumerate(ABLATION):
+        cont, child, binding = case[:3]
+        observer = case[3] if len(case) > 3 else ""
         for with_b in (True, False):
             inner = ("%s { id: x\n        %s\n      }" % (child, binding if with_b else "")) if child else (binding if with_b else "")
-            qml = ("import qmluic.QtWidgets\nQWidget {\n  id: root\n  QCheckBox { id: chk }\n  QSpinBox { id: spin }\n  QLineEdit { id: edit }\n"
-                   "  QWidget {\n    %s\n      id: host\n      %s\n    }\n  }\n}\n" % (cont, inner))
+            qml = ("import qmluic.QtWidgets\nQWidget {\n  id: root\n  QCheckBox { id: chk }\n  QSpinBox { id: spin }\n  QLineEdit { id: edit }\n  %s\n"
+                   "  QWidget {\n    %s\n      id: host\n      %s\n    }\n  }\n}\n" % (observer, cont, inner))
             if cont in ("QComboBox {", "QTableView {", "QMenu {", "QTabWidget {", "QWidget {"):
                 qml = qml.replace("  QWidget {\n    %s" % cont, "  QWidget {\n   QVBoxLayout {\n    %s" % cont).replace("    }\n  }\n}\n", "    }\n   }\n  }\n}\n")
             reqs.append({"id": "%d%s" % (n, "w" if with_b else "o"), "src": qml, "type_name": "Doc", "modes": ["generate"]})
     res = translate(reqs, metatypes=[QT5_METATYPES])
     n_diag = 0
-    for n, (cont, child, binding) in enumerate(ABLATION):
+    for n, case in enumerate(ABLATION):
+        cont, child, binding = case[:3]
         w, o = res["%dw" % n]["generate"], res["%do" % n]["generate"]
         chk.count({"ablation": [cont, child, binding]}, nontrivial=True)
         if any(x.get("panic") or x.get("timeout") or x.get("crash") for x in (w, o)):
